@@ -737,6 +737,10 @@ def rule_r13(repo, run, helpers):
                           "- every failed conversion takes one reference away from the caller's object (crash when it reaches "
                           "zero)" % (m.group(0), name), "shroud/whelpers.py")
     run.floor(R, "Py_DECREF sites in helpers", n, 10)
+    # ... and what a converter keeps (value->dataobj = obj) is a reference of its own: the wrapper releases dataobj later
+    from checks import c03
+    from sa.report import import_rules
+    import_rules(run, R, c03, repo, {"C03.R11"}, only=lambda c: "dataobj" in c)
 
 
 def run(repo, run, tier):
